@@ -26,21 +26,24 @@ LevelAfter(o, k) ==
   IF k = 0 THEN 0
   ELSE LET e == T.events[k] prev == LevelAfter(o, k - 1) IN
        IF e.obj # o THEN prev
-       ELSE CASE e.op \in {"new", "new_bad"} -> 0
+       ELSE CASE e.op = "new" /\ e.ctor = "staged" -> 1
+              [] e.op \in {"new", "new_bad"} -> 0
               [] e.op = "resolve" -> prev + 1
               [] e.op \in {"resolve_iter", "resolve_all"} -> T.levels[e.inp]
               [] OTHER -> prev
 
+StartLevel(o, k) == IF \E j \in 1..k : T.events[j].obj = o /\ T.events[j].op = "new" /\ T.events[j].ctor = "staged" THEN 1 ELSE 0
 Expected(k) ==
-  LET e == T.events[k] before == LevelAfter(e.obj, k - 1) top == T.levels[e.inp] IN
+  LET e == T.events[k] before == LevelAfter(e.obj, k - 1) top == T.levels[e.inp]
+      fresh == before = StartLevel(e.obj, k) IN
   CASE e.op = "new" -> [enabled |-> TRUE, lv |-> <<>>, out |-> "ok"]
     [] e.op = "new_bad" -> [enabled |-> TRUE, lv |-> <<>>, out |-> "exc:OSError"]
     [] e.op = "resolve" -> [enabled |-> before < top, lv |-> <<before + 1>>, out |-> "ok"]
     \* on an already stepped object the drivers run past the last level after yielding the rest
     [] e.op = "resolve_iter" -> [enabled |-> before < top, lv |-> [i \in 1..(top - before) |-> before + i],
-                                out |-> IF before = 0 THEN "ok" ELSE "exc:IndexError"]
-    [] e.op = "resolve_all" -> [enabled |-> before < top, lv |-> IF before = 0 THEN <<top>> ELSE <<>>,
-                               out |-> IF before = 0 THEN "ok" ELSE "exc:IndexError"]
+                                out |-> IF fresh THEN "ok" ELSE "exc:IndexError"]
+    [] e.op = "resolve_all" -> [enabled |-> before < top, lv |-> IF fresh THEN <<top>> ELSE <<>>,
+                               out |-> IF fresh THEN "ok" ELSE "exc:IndexError"]
     [] OTHER -> [enabled |-> before = top, lv |-> <<>>, out |-> "exc:IndexError"]
 
 Ref(inp, lv) == {r[3] : r \in {x \in ToSet(T.reference) : x[1] = inp /\ x[2] = lv}}
